@@ -147,18 +147,29 @@ func (obj *Package) Use(pkg *Package) {
 		if obj.vars == nil {
 			obj.vars = map[string]*VarVal{}
 		}
+		// A definition or export made in this package is not replaced. A
+		// stand-in for a variable or function referenced before being
+		// defined is.
 		for name, vv := range pkg.vars {
-			if vv.Export {
-				obj.vars[name] = vv
+			if !vv.Export {
+				continue
 			}
+			if xv := obj.vars[name]; xv != nil && (xv.Pkg == obj || xv.Pkg == nil) && (Unbound != xv.Val || xv.Export) {
+				continue
+			}
+			obj.vars[name] = vv
 		}
 		if obj.funcs == nil {
 			obj.funcs = map[string]*FuncInfo{}
 		}
 		for name, fi := range pkg.funcs {
-			if fi.Export {
-				obj.funcs[name] = fi
+			if !fi.Export {
+				continue
 			}
+			if xf := obj.funcs[name]; xf != nil && xf.Pkg == obj && xf.Doc != nil {
+				continue
+			}
+			obj.funcs[name] = fi
 		}
 		if obj.classes == nil {
 			obj.classes = map[string]Class{}
